@@ -626,6 +626,42 @@ def run_rows_iter(chk, spec):
 
 RUNNERS.update({"rows_iter": run_rows_iter})
 
+def run_repeated_selection(chk, spec):
+	"""t[(a, b, a)]: a name asked for twice gives two columns with the same cells - two separate columns: a write to one is not a write to the other (nor to
+	the source table), exactly as for t[rows][cols] with the same names"""
+	ts = spec["table"]
+	t = common.mk_table(ts)
+	key = tuple(spec["cols"])
+	before = [list(c._underlying) for c in t.cols()]
+	o = call(lambda: t[key] if spec["rows"] is None else (t[slice(*spec["rows"]), key] if spec["order"] == "rows-first" else t[key, slice(*spec["rows"])]))
+	chk.judged("table-commute", ("repeated-selection", len(key), spec["rows"] is None, spec["order"]))
+	if not o.ok or not isinstance(o.value, Table) or len(o.value) == 0:
+		chk.skip("repeated-selection-unavailable")
+		return
+	sel = o.value
+	cols = sel.cols()
+	if any(cols[i] is cols[j] for i in range(len(cols)) for j in range(i + 1, len(cols))):
+		chk.fail("a selection of several columns is a table of separate columns", "table-select/one-column-object-twice", f"{spec!r}: two positions of t[{key!r}] hold the same column object")
+		return
+	snap0 = [list(c._underlying) for c in cols]
+	first = key.index(spec["dup"])
+	w = call(lambda: sel.__setitem__((0, first), None))
+	if not w.ok:
+		chk.counters["repeated-selection:write-refused"] += 1
+		if type(w.exc).__name__ == "AliasError":
+			chk.fail("selections are tables of their own and take writes", "table-select/write-refused-alias", f"{spec!r}: writing cell (0, {first}) of t[{key!r}] raised {w!r}", prop="C15")
+		return
+	now = [list(c._underlying) for c in sel.cols()]
+	for j in range(len(key)):
+		if j != first and now[j] != snap0[j]:
+			chk.fail("the same row selection is applied to every column alike - the selected columns are separate columns", "table-select/write-reaches-twin-column", f"{spec!r}: writing cell (0, {first}) of t[{key!r}] changed column {j}: {snap0[j]!r} -> {now[j]!r}")
+			return
+	if [list(c._underlying) for c in t.cols()] != before:
+		chk.fail("a selection is a new table", "table-select/write-reaches-source", f"{spec!r}: the source table changed")
+
+
+RUNNERS.update({"repeated_selection": run_repeated_selection})
+
 
 def run(chk):
 	recompute.add_cases(chk, "C07")
@@ -780,6 +816,15 @@ def run(chk):
 		form = rng.choice(["name", "int", "names", "slice"])
 		cols = [rng.randrange(nc)] if form in ("name", "int") else ([rng.randrange(nc) for _ in range(rng.choice([1, 2]))] if form == "names" else (rng.choice([None, 0, 1]), rng.choice([None, nc, 1]), None))
 		chk.case("table_2d", {"table": ts, "s": (rng.choice(STARTS), rng.choice(STARTS), rng.choice(STEPS)), "colform": form, "cols": cols, "order": rng.choice(["rows-first", "cols-first"])}, "table-2d")
+	for _ in range(60 if chk.quick() else 400):
+		ts = gen_table(rng, nrows=rng.choice([1, 2, 3]), ncols=rng.choice([2, 3, 4]))
+		ts["names"] = ["a", "b", "c", "d"][:len(ts["names"])]
+		dup = rng.choice(ts["names"])
+		cols = [dup, rng.choice(ts["names"]), dup][:rng.choice([2, 3])]
+		if cols.count(dup) < 2:
+			cols = [dup, dup]
+		rng.shuffle(cols)
+		chk.case("repeated_selection", {"table": ts, "cols": cols, "dup": dup, "rows": rng.choice([None, None, (None, None, None), (0, None, None)]), "order": rng.choice(["rows-first", "cols-first"])}, "repeated-selection")
 	near = {"names": ["amt", "amt", "a b", "c"], "cols": [[1, 2], [3, 4], [5, 6], [7, 8]]}
 	for missing in ("amt__01", "amt__\u0661", "a b__2", "amt__2", "amt__3", "amt__-1", "amt__1 ", " amt__1", "a-b__2", "a_b__02", "amt__1__1", "amt___1", "col0_", "col_0", "c__03", "amt__+1", "amt__1.0"):
 		chk.case("table_missing", {"table": near, "cols": [missing], "single": True, "pos": "first"}, "table-missing-near-accessor")
